@@ -32,4 +32,10 @@ META = {'C01': {'text': 'Model-based stateful property testing: random histories
          'design_ref': 'DESIGN.md §6 C05',
          'note': "Trusts the harness's own list of written ops as oracle; format limits (offset < 2^31, strings <= 65535 bytes) are respected by the "
                  'generator.',
-         'technique': 'property-based testing (rapid) + bounded exhaustive enumeration + native go fuzz, round-trip oracle'}}
+         'technique': 'property-based testing (rapid) + bounded exhaustive enumeration + native go fuzz, round-trip oracle'},
+ 'C07': {'text': 'Model-based stateful property testing with snapshot->restore->continue cycles inside the history; the restored collection replaces '
+                 "the primary and must keep agreeing with the reference model, including the allocator's behaviour. Exploration over bounded random "
+                 'histories.',
+         'design_ref': 'DESIGN.md §6 C07',
+         'note': 'Trusts the reference model; snapshots are taken and restored through in-memory buffers (bytes.Buffer).',
+         'technique': 'model-based stateful property testing (rapid) with round-trip + reference-model oracle'}}
